@@ -40,4 +40,10 @@ package tls
 // loopiter is the checker's ghost count of completed iterations.
 //@ func (*clientHelloMsg).unmarshal
 //@   modifies *
+//@   ensures [version] result ==> m.vers == uint16(old(data[4]))<<8 | uint16(old(data[5]))
+//@   loop 2: invariant [suites-so-far] len(m.cipherSuites) == numCipherSuites && (forall k int :: 0 <= k && k < i ==> m.cipherSuites[k] == uint16(old(data[41+int(data[38])+2*k]))<<8 | uint16(old(data[42+int(data[38])+2*k])))
 //@   loop 1: invariant len(extensions) == loopiter
+//@   loop 1: invariant [own-arrays] disjoint(extensions, m.cipherSuites)
+//@   loop 1: invariant [suites-kept] forall k int :: 0 <= k && k < len(m.cipherSuites) ==> m.cipherSuites[k] == uint16(old(data[41+int(data[38])+2*k]))<<8 | uint16(old(data[42+int(data[38])+2*k]))
+//@   ensures [suites] result ==> (forall k int :: 0 <= k && k < len(m.cipherSuites) ==> m.cipherSuites[k] == uint16(old(data[41+int(data[38])+2*k]))<<8 | uint16(old(data[42+int(data[38])+2*k])))
+//@   ensures [suites-count] result ==> len(m.cipherSuites) == (int(old(data[39+int(data[38])]))<<8 | int(old(data[40+int(data[38])]))) / 2
